@@ -684,33 +684,133 @@ func c12DateDistance(p *load.Prog, r *oblig.Run) {
 	}
 	d1 := "(DateRange.Years(p0)-DateRange.Years(p1))"
 	d2 := "(DateRange.Years(p1)-DateRange.Years(p0))"
-	even := regexp.MustCompile(`^(Pow\(\(?D(/p2\))?,2\)|Abs\(D\)|\(D\*D\))`)
+	operandRe := regexp.MustCompile(`\bp[01]\b`)
 	bad, unknown := "", ""
 	uses := 0
-	for _, e := range exprs {
-		x := strings.ReplaceAll(strings.ReplaceAll(e, d1, "D"), d2, "D")
-		if strings.Contains(x, "?") {
-			unknown = e
-			continue
+	_ = exprs
+	// every returned value and both sides of every comparison, as polynomials in the year difference D
+	var evalD func(v ssa.Value, d int) poly
+	evalD = func(v ssa.Value, d int) poly {
+		if d > 30 {
+			unknown = "expression too deep"
+			return polyConst(0)
 		}
-		if regexp.MustCompile(`\bp[01]\b`).MatchString(x) {
-			bad = "the expression " + e + " uses an operand otherwise than through the difference of the two Years() values"
-			continue
+		if f, ok := floatConst(v); ok {
+			return polyConst(f)
 		}
-		// every D under an even function
-		for i := 0; i < len(x); i++ {
-			if x[i] != 'D' || (i+1 < len(x) && (x[i+1] >= 'a' && x[i+1] <= 'z')) || (i > 0 && ((x[i-1] >= 'a' && x[i-1] <= 'z') || (x[i-1] >= 'A' && x[i-1] <= 'Z') || x[i-1] == '.')) {
-				continue
-			}
+		ds := env.desc(v, 0)
+		switch ds {
+		case d1:
 			uses++
-			okEven := false
-			for _, back := range []int{4, 5, 1} { // "Pow(" / "Pow((" / "Abs(" -> 4, "(" for (D*D)
-				if i-back >= 0 && even.MatchString(x[i-back:]) {
-					okEven = true
+			return polySym("D")
+		case d2:
+			uses++
+			return polySym("D").mul(polyConst(-1))
+		}
+		switch x := v.(type) {
+		case *ssa.Convert:
+			return evalD(x.X, d+1)
+		case *ssa.ChangeType:
+			return evalD(x.X, d+1)
+		case *ssa.BinOp:
+			switch x.Op {
+			case token.ADD:
+				return evalD(x.X, d+1).add(evalD(x.Y, d+1), 1)
+			case token.SUB:
+				return evalD(x.X, d+1).add(evalD(x.Y, d+1), -1)
+			case token.MUL:
+				return evalD(x.X, d+1).mul(evalD(x.Y, d+1))
+			case token.QUO:
+				den := evalD(x.Y, d+1)
+				if len(den) == 1 {
+					for k, c := range den {
+						if k == "" && c != 0 {
+							return evalD(x.X, d+1).mul(polyConst(1 / c))
+						}
+						if !strings.Contains(k, "D") && c != 0 {
+							return evalD(x.X, d+1).mul(poly{"1/(" + k + ")": 1 / c})
+						}
+					}
+				}
+				unknown = "division by an expression of the distance"
+				return polyConst(0)
+			}
+		case *ssa.Call:
+			if cal := x.Call.StaticCallee(); cal != nil && cal.Pkg != nil && cal.Pkg.Pkg.Path() == "math" {
+				switch cal.Name() {
+				case "Pow":
+					if k, ok := floatConst(x.Call.Args[1]); ok && k == 2 {
+						a := evalD(x.Call.Args[0], d+1)
+						return a.mul(a)
+					}
+				case "Abs":
+					a := evalD(x.Call.Args[0], d+1)
+					// |a| is even in D whenever a is odd or even in D: a fresh symbol that counts as even
+					return polySym("abs<" + strings.ReplaceAll(polyString(a), "*", "·") + ">")
 				}
 			}
-			if !okEven {
-				bad = "the distance in years is used signed in " + e + " (not under a square or an absolute value): the score then depends on the order of the operands"
+		}
+		if strings.Contains(ds, "?") {
+			unknown = ds
+			return polyConst(0)
+		}
+		if operandRe.MatchString(ds) {
+			bad = "the expression " + ds + " uses an operand otherwise than through the difference of the two Years() values"
+			return polyConst(0)
+		}
+		return polySym(ds)
+	}
+	evenInD := func(a poly) bool {
+		for k, c := range a {
+			if c > 1e-12 || c < -1e-12 {
+				n := 0
+				for _, sy := range strings.Split(k, "*") {
+					if sy == "D" {
+						n++
+					}
+				}
+				if n%2 != 0 {
+					return false
+				}
+			}
+		}
+		return true
+	}
+	check := func(v ssa.Value, what string) {
+		a := evalD(v, 0)
+		if bad == "" && unknown == "" && !evenInD(a) {
+			bad = "the distance in years is used signed in " + what + " " + polyString(a) + " (not under a square or an absolute value): the score then depends on the order of the operands"
+		}
+	}
+	for _, b := range fn.Blocks {
+		switch t := b.Instrs[len(b.Instrs)-1].(type) {
+		case *ssa.Return:
+			for _, v := range t.Results {
+				if ph, ok := v.(*ssa.Phi); ok {
+					for _, e := range ph.Edges {
+						check(e, "the returned value")
+					}
+					continue
+				}
+				check(v, "the returned value")
+			}
+		case *ssa.If:
+			c := t.Cond
+			for {
+				u, ok := c.(*ssa.UnOp)
+				if !ok || u.Op != token.NOT {
+					break
+				}
+				c = u.X
+			}
+			if bo, ok := c.(*ssa.BinOp); ok {
+				check(bo.X, "a branch condition:")
+				check(bo.Y, "a branch condition:")
+			} else {
+				ds := env.desc(c, 0)
+				if operandRe.MatchString(ds) {
+					bad = "the expression " + ds + " uses an operand otherwise than through the difference of the two Years() values"
+				}
 			}
 		}
 	}
@@ -1078,8 +1178,35 @@ func c04PatternFirst(p *load.Prog, r *oblig.Run) {
 		}
 		o.Pos = p.Pos(fn.Pos())
 		var matches []ssa.Instruction
+		var doesMatch func(h *ssa.Function, d int) bool
+		doesMatch = func(h *ssa.Function, d int) bool {
+			if h == nil || d > 2 {
+				return false
+			}
+			if h.Pkg != nil && h.Pkg.Pkg.Path() == "regexp" && (strings.HasPrefix(h.Name(), "Find") || strings.HasPrefix(h.Name(), "Match")) {
+				return true
+			}
+			if !p.InRepo(h) || len(h.Blocks) == 0 {
+				return false
+			}
+			// a helper that matches on every path before it returns
+			for _, c2 := range su.Calls(h) {
+				if doesMatch(c2.Common().StaticCallee(), d+1) {
+					all := true
+					for _, b2 := range h.Blocks {
+						if ret, ok := b2.Instrs[len(b2.Instrs)-1].(*ssa.Return); ok && b2 != h.Recover && !su.Dominates(c2, ret) {
+							all = false
+						}
+					}
+					if all {
+						return true
+					}
+				}
+			}
+			return false
+		}
 		for _, c := range su.Calls(fn) {
-			if cal := c.Common().StaticCallee(); cal != nil && cal.Pkg != nil && cal.Pkg.Pkg.Path() == "regexp" && strings.HasPrefix(cal.Name(), "Find") || cal != nil && cal.Pkg != nil && cal.Pkg.Pkg.Path() == "regexp" && strings.HasPrefix(cal.Name(), "Match") {
+			if cal := c.Common().StaticCallee(); cal != fn && doesMatch(cal, 0) {
 				matches = append(matches, c)
 			}
 		}
